@@ -53,12 +53,17 @@ def cps(s):
     return [ord(c) for c in s]
 
 
-def _generate(models, nsdir, out):
-    import nunavut
+def new_lctx():
     from nunavut.lang import LanguageContextBuilder
 
+    return LanguageContextBuilder(include_experimental_languages=True).set_target_language("py").create()
+
+
+def _generate(models, nsdir, out, lctx=None):
+    import nunavut
+
     try:
-        lctx = LanguageContextBuilder(include_experimental_languages=True).set_target_language("py").create()
+        lctx = lctx or new_lctx()
         tree = nunavut.build_namespace_tree(models, str(nsdir), str(out), lctx)
         from nunavut._generators import create_default_generators
 
@@ -112,24 +117,32 @@ def descr(t):
     raise MachineryFailure("unexpected field type %r" % (t,))
 
 
+def write_files(nsdir, files):
+    for rel, text in files.items():
+        p = nsdir / rel
+        p.parent.mkdir(parents=True, exist_ok=True)
+        p.write_text(text)
+
+
 class Pkg:
-    def __init__(self, ctx, ns, files):
-        """files: {path relative to the root namespace directory: DSDL text}"""
+    def __init__(self, ctx, ns, files, attach=None):
+        """files: {path relative to the root namespace directory: DSDL text};  attach=(nsdir, out): the package was generated
+        earlier (by another process), only read the source models and import the classes"""
         import pydsdl
 
         _pk[0] += 1
         self.ns = ns
-        self.root = ctx.scratch / ("pkg%d" % _pk[0])
-        nsdir = self.root / "dsdl" / ns
-        for rel, text in files.items():
-            p = nsdir / rel
-            p.parent.mkdir(parents=True, exist_ok=True)
-            p.write_text(text)
-        self.out = self.root / "out"
+        if attach is None:
+            self.root = ctx.scratch / ("pkg%d" % _pk[0])
+            nsdir = self.root / "dsdl" / ns
+            write_files(nsdir, files)
+            self.out = self.root / "out"
+        else:
+            nsdir, self.out = attach
         with warnings.catch_warnings():
             warnings.simplefilter("ignore")
             self.models = pydsdl.read_namespace(str(nsdir), [], allow_unregulated_fixed_port_id=True)
-            self.fine_api = _generate(self.models, nsdir, self.out)
+            self.fine_api = _generate(self.models, nsdir, self.out) if attach is None else True
         sys.path.insert(0, str(self.out))
         importlib.invalidate_caches()
         try:
@@ -1189,9 +1202,10 @@ def model_digest(m):
         fields = [cps("%s %s" % (f.name, type_text(f.data_type))) for f in m.fields]
         consts = [cps("%s %s = %s" % (c.name, type_text(c.data_type), c.value.native_value)) for c in m.constants]
         inner = cps(sha("%s|%s" % (m.bit_length_set.min, m.bit_length_set.max)))
+    docs = [getattr(m, "doc", "")] + [getattr(a, "doc", "") for a in getattr(m, "attributes", [])]
     return {"kind": cps(kind), "name": cps(m.full_name), "ver": [int(m.version.major), int(m.version.minor)], "sealed": sealed,
             "extent": extent, "deprecated": int(bool(m.deprecated)), "port": 65536 if m.fixed_port_id is None else int(m.fixed_port_id),
-            "fields": fields, "consts": consts, "inner": inner}
+            "fields": fields, "consts": consts, "inner": inner, "doc": cps(sha(json.dumps(docs)))}
 
 
 def model_events(ctx, pkg, recs, meta):
@@ -1288,7 +1302,7 @@ def rt_events(ctx, pkg, recs, meta, n_obj):
                     try:
                         b = sup.to_builtin(o)
                         info["builtin"] = _short(b)
-                        rec["plain"] = int(is_plain(b))
+                        rec["plain"] = int(is_plain(b) and set(b) <= {dn for _, dn, _ in comp.fields})
                         o2 = sup.update_from_builtin(comp.cls(), b)
                         rec["b"] = list(b"".join(bytes(x) for x in sup.serialize(o2)))
                     except Exception as ex:  # noqa
@@ -1311,8 +1325,12 @@ def judge(ctx, recs, meta):
         if clause.startswith("harness"):
             raise MachineryFailure("harness produced an inconsistent record (%s): %r" % (clause, info))
         sig = "C18|%s|%s" % (clause, info["tag"])
+        if "history" in info:
+            sig = ("C18|pyobj.model_eq|history|" + clause.split(".")[-1]) if clause.startswith("pyobj.model") else "C18|%s|history|%s" % (clause, info["tag"])
         what = {"ctor": "constructor %(type)s(%(kw)s) -> %(exc)s", "assign": "%(type)s.%(field)s = %(x)s -> %(exc)s",
                 "model": "%(type)s: _MODEL_ / get_class(get_model(cls)) does not reflect the source model %(exc)s", "rt": "%(type)s: %(obj)s"}[info["op"]] % dict({"exc": "", "kw": ""}, **info)
+        if "history" in info:
+            what = "%s -- %s" % (info["history"], what)
         ctx.violation(sig, "%s  [T-layer clause %s]" % (what, clause), {"dir": "code->spec", "seed": ctx.seed, "tier": ctx.tier, "record": recs_by_id(recs, rid), "info": info})
     return rej
 
@@ -1443,6 +1461,145 @@ def namespace_files(root):
     return files
 
 
+# ------------------------------------------------------------------------------------------------------------------------------
+# generation histories (specs/PyObjectGen.tla): several revisions of the same definitions rendered by ONE process
+# ------------------------------------------------------------------------------------------------------------------------------
+def revision_files(root, rev):
+    """revision `rev` (1..3) of one definition set: same full names, versions and size profiles (PyDSDL's ==/hash cannot tell the
+    revisions apart); field names, signedness, constant values and documentation differ"""
+    n = {1: ("x", "y", "small", "big", "req", "code", "p", "data", "v"),
+         2: ("a", "b", "tiny", "large", "q", "status", "point", "raw", "w"),
+         3: ("x", "y", "small", "big", "req", "code", "p", "data", "v")}[rev]
+    u, i = ("uint", "int") if rev != 2 else ("int", "uint")
+    k = {1: 10, 2: 20, 3: 30}[rev]
+    doc = {1: "# first wording\n", 2: "# renamed fields, other signedness\n", 3: "# third wording: only constants and comments differ\n"}[rev]
+    return {
+        "Pt.1.0.dsdl": "%suint8 LIMIT = %d\nfloat32 SCALE = %d.5\n%s16 %s\n%s16 %s  # field %d\n@sealed\n" % (doc, k, k, u, n[0], i, n[1], rev),
+        "Sel.1.0.dsdl": "%s@union\n%s8 %s\n%s32 %s\n%s.Pt.1.0 pt%s\n@sealed\n" % (doc, u, n[2], i, n[3], root, "" if rev != 2 else "2"),
+        "7.Svc.1.0.dsdl": "%suint8 K = %d\n%s8 %s\n%s.Pt.1.0[<=2] pts\n@sealed\n---\n@union\n%s16 %s\n%s.Sel.1.0 sel\n@extent 256\n"
+                          % (doc, k, u, n[4], root, i, n[5], root),
+        "Box.1.0.dsdl": "%s%s.Pt.1.0 %s\n%s8[<=3] %s\n%s.sub.Deep.1.0[<=2] deep\n@extent 1024\n" % (doc, root, n[6], u, n[7], root),
+        "sub/Deep.1.0.dsdl": "%sint64 BIG = -%d\n%s64 %s\nbool flag\n@sealed\n" % (doc, k, i, n[8]),
+    }
+
+
+class _ProbeCtx:
+    """what model_events / rt_events need of a context when they run in the probe interpreter"""
+
+    def __init__(self):
+        import random
+
+        self.rng = random.Random(18)
+        self.drifts = []
+
+    def count(self, n=1):
+        pass
+
+    def distinct(self, key, nontrivial=True):
+        pass
+
+    def drift(self, what):
+        self.drifts.append(what)
+
+
+def probe_main(spec_path):
+    """fresh interpreter: import packages that another process generated and record model / rt events for them"""
+    import pathlib
+
+    spec = json.loads(open(spec_path).read())
+    ctx = _ProbeCtx()
+    ctx.scratch = pathlib.Path(spec["scratch"])
+    res = []
+    for item in spec["items"]:
+        recs, meta, broken = [], {}, None
+        try:
+            pkg = Pkg(ctx, item["root"], None, attach=(pathlib.Path(item["nsdir"]), pathlib.Path(item["out"])))
+            model_events(ctx, pkg, recs, meta)
+            rt_events(ctx, pkg, recs, meta, 2)
+        except GeneratedCodeBroken as ex:
+            broken = {"sig": ex.sig, "what": str(ex)}
+        res.append({"item": item, "recs": recs, "meta": {str(k): v for k, v in meta.items()}, "broken": broken})
+    print("PROBE-RESULT " + json.dumps({"results": res, "drifts": ctx.drifts}))
+
+
+def history_events(ctx, recs, meta):
+    """spec -> code for PyObjectGen.tla: every emitted run history is executed in THIS process (each history under its own root
+    namespace, so that it starts from a state that knows nothing about its names); every written package is then imported by
+    a fresh interpreter and its embedded models / conversions are recorded against the source models of ITS revision."""
+    import os
+    import subprocess
+    import pydsdl
+
+    for cfg, flag in (("PyObjectGen_neg_process", "process"), ("PyObjectGen_neg_context", "context")):
+        neg = tlc.run_tlc(tlc.SPECS / "PyObjectGen.tla", tlc.SPECS / (cfg + ".cfg"), ctx.scratch, workers=1)
+        if neg.violated != "EmbeddedEqSource":
+            raise MachineryFailure("negative control Memo=%s was not refuted (%s)" % (flag, neg.error))
+        ctx.cov.setdefault("model_negative_controls", []).append("PyObjectGen Memo=%s refuted by EmbeddedEqSource after %d states" % (flag, neg.distinct))
+    tlc.check_model(ctx, "PyObjectGen", "PyObjectGen", constants="NRev=3 NTypes=2 MaxGen=3 Memo=none")
+    hists = [c["runs"] for c in tlc.emit_cases(ctx, "PyObjectGen", ctx.pick("PyObjectGen_emit", "PyObjectGen_emit3"),
+                                               constants="NRev=3 NTypes=2 MaxGen=%d Memo=none (emission)" % ctx.pick(2, 3))]
+    if len(hists) < 18:
+        raise MachineryFailure("too few generation histories emitted: %d" % len(hists))
+    base = ctx.scratch / "hist"
+    items = []
+    for hi, runs in enumerate(hists):
+        root = "c18h%d" % hi
+        lctx = None
+        for si, run in enumerate(runs):
+            files = revision_files(root, run["rev"])
+            nsdir = base / ("h%d" % hi) / ("run%d" % si) / "dsdl" / root
+            out = base / ("h%d" % hi) / ("run%d" % si) / "out"
+            write_files(nsdir, files)
+            with warnings.catch_warnings():
+                warnings.simplefilter("ignore")
+                models = pydsdl.read_namespace(str(nsdir), [], allow_unregulated_fixed_port_id=True)
+                if not (run["reuse"] and lctx is not None):
+                    lctx = new_lctx()
+                _generate(models, nsdir, out, lctx)
+            ctx.count()
+            items.append({"root": root, "nsdir": str(nsdir), "out": str(out), "hist": hi, "step": si, "rev": run["rev"],
+                          "runs": runs[:si + 1]})
+    # one fresh interpreter per step index (packages of one history share their root name, those of different histories do not)
+    env = dict(os.environ)
+    jobs = []
+    for si in sorted({it["step"] for it in items}):
+        sp = base / ("probe%d.json" % si)
+        sp.write_text(json.dumps({"scratch": str(ctx.scratch), "items": [it for it in items if it["step"] == si]}))
+        jobs.append(sp)
+
+    def one(sp):
+        return subprocess.run([sys.executable, "-c", "import sys; from vf.props import c18; c18.probe_main(sys.argv[1])", str(sp)],
+                              stdout=subprocess.PIPE, stderr=subprocess.PIPE, text=True, env=env, timeout=1800)
+
+    nrec = 0
+    with concurrent.futures.ThreadPoolExecutor(max_workers=4) as ex:
+        for r in ex.map(one, jobs):
+            line = next((ln for ln in r.stdout.splitlines() if ln.startswith("PROBE-RESULT ")), None)
+            if r.returncode != 0 or line is None:
+                raise MachineryFailure("probe interpreter failed: %s" % (r.stderr[-1500:],))
+            doc = json.loads(line[len("PROBE-RESULT "):])
+            for d in doc["drifts"]:
+                ctx.drift(d)
+            for res in doc["results"]:
+                it = res["item"]
+                hdesc = "run %d of history %s (revisions rendered by one process, reuse = same LanguageContext)" % (
+                    it["step"] + 1, [(x["rev"], "reuse" if x["reuse"] else "new") for x in it["runs"]])
+                if res["broken"]:
+                    ctx.violation("C18|pyobj.model_eq|history|" + res["broken"]["sig"].split("|")[-1], "%s: %s" % (hdesc, res["broken"]["what"]),
+                                  {"dir": "history", "runs": it["runs"]})
+                    continue
+                for rec in res["recs"]:
+                    info = dict(res["meta"][str(rec["id"])], history=hdesc, runs=it["runs"])
+                    rec["id"] = len(recs)
+                    recs.append(rec)
+                    meta[rec["id"]] = info
+                    nrec += 1
+            ctx.distinct("g|%s" % sha(json.dumps(doc["results"][0]["item"]["runs"]))[:10])
+    for runs in hists:
+        ctx.distinct("g|" + json.dumps(runs), nontrivial=len({r["rev"] for r in runs}) > 1)
+    ctx.cov["generation_histories"] = {"histories": len(hists), "runs": len(items), "records": nrec}
+
+
 def special_files():
     """hand-written definitions: everything the embedded model must reflect"""
     return {
@@ -1510,6 +1667,7 @@ def part_code_to_spec(ctx, pkg_a):
         random_events(ctx, p, recs, meta, ctx.pick(4, 8), ctx.pick(8, 10))
         rt_events(ctx, p, recs, meta, ctx.pick(5, 12))
     rt_events(ctx, pkg_a, recs, meta, 2)
+    history_events(ctx, recs, meta)
     for ev in ("ctor", "assign", "model", "rt"):
         ex = next((r for r in recs if r["ev"] == ev and (ev != "assign" or r["out"] == "verr")), None)
         if ex is not None:
